@@ -174,6 +174,11 @@ def gatherCopyMask (s : St) (t : Dense) : Res St := do
         wr s (j + 1) vs
     wr s 0 padded
 
+/-- `for i, d := range expShape { if d != 1 && i < len(expStrides) && i < len(strides) { expStrides[i] = strides[i] } }` -/
+def vectorKeepStrides : Shape → List Int → List Int → List Int
+  | d :: ds, e :: es, s :: ss => (if d != 1 then s else e) :: vectorKeepStrides ds es ss
+  | _, es, _ => es
+
 /-- `(*Dense).Transpose()`: physically move the data of a pending lazy transpose. -/
 def transpose (s : St) (t : Dense) : Res (St × Dense) := do
   match t.old with
@@ -182,7 +187,10 @@ def transpose (s : St) (t : Dense) : Res (St × Dense) := do
     if isScalar t.shape then pure (s, t) else
     let exp := defaultStrides t.ap.o.col t.shape
     let done : Dense := { t with ap := { t.ap with strides := copyPrefix t.ap.strides exp }, old := none, tw := none }
-    if isVector t.shape then pure (s, done) else
+    -- a vector: no data movement, the axis that holds the elements keeps the stride it has
+    if isVector t.shape then
+      pure (s, { done with ap := { t.ap with strides := copyPrefix t.ap.strides (vectorKeepStrides t.shape exp t.ap.strides) } })
+    else
     let s ← gatherCopyMask s t
     let s ← gatherCopy s t
     pure (s, done)
